@@ -328,6 +328,39 @@ async fn cancelled_send(ctx: &mut Ctx, seed: u64, case: &Value) {
     let mut m: Frames = vec![peers[t].id.clone()];
     m.extend(rc::tagged(600, 0, &[size]));
     let mut polls = 0;
+    if r.chance(1, 2) {
+        // not abandoned: the send waits for the peer, and when it returns the message is
+        // on that peer's connection in full
+        let before = peers[t].conn.tap_len();
+        let want = rc::message(&m[1..]);
+        let res = {
+            let mut f = Managed::new(sock.send(&m));
+            let first = f.poll_once();
+            sim::settle().await;
+            if first.is_pending() {
+                ctx.count("sends_waiting_for_a_peer_that_is_not_reading");
+            }
+            peers[t].conn.set_credit(None);
+            match first {
+                Poll::Ready(x) => Ok(Some(x)),
+                Poll::Pending => f.drive().await,
+            }
+        };
+        sim::settle().await;
+        let grown = peers[t].conn.tap_from(before);
+        if !matches!(res, Ok(Some(Ok(())))) || grown != want {
+            ctx.violation_with(
+                "C09/routed-message-incomplete-when-send-returned",
+                format!(
+                    "send of a {size}-byte body to peer {t} whose connection accepted only {stall_after} bytes at first: result {res:?}, {} of {} bytes on its connection after it read again",
+                    grown.len(),
+                    want.len()
+                ),
+                case.clone(),
+            );
+        }
+        return;
+    }
     {
         let mut f = Managed::new(sock.send(&m));
         loop {
@@ -490,11 +523,11 @@ impl Prop for C09 {
     fn cases(&self, tier: Tier, seed: u64) -> Vec<Value> {
         let mut v = Vec::new();
         for n in 1..=6usize {
-            for k in 0..tier.pick(400, 4000) {
+            for k in 0..tier.pick(400, 40_000) {
                 v.push(json!({"kind": "run", "peers": n, "seed": mix(seed ^ (k as u64) << 4 ^ n as u64), "gone": k % 4}));
             }
         }
-        for k in 0..tier.pick(300, 3000) {
+        for k in 0..tier.pick(300, 30_000) {
             v.push(json!({"kind": "cancelled_send", "seed": mix(seed ^ 0x9C ^ k as u64)}));
         }
         for observed in [false, true] {
@@ -537,6 +570,7 @@ impl Prop for C09 {
             ("peers_with_empty_identity_property", 100),
             ("sockets_with_several_empty_identity_peers", 20),
             ("sends_abandoned_while_pending", 50),
+            ("sends_waiting_for_a_peer_that_is_not_reading", 30),
             ("sends_delivered_after_an_abandoned_send", 200),
             ("reconnects_before_the_end_was_observed", 4),
             ("reconnects_after_the_end_was_observed", 4),
